@@ -170,6 +170,14 @@ func mixerBuild(s Step, variant string) (*iterable.Mixer[int], error) {
 			m.HasNext()
 		case "reinit-mid":
 			m.Next()
+		case "reinit-closed":
+			for m.HasNext() {
+				m.Next()
+			}
+			m.Close()
+		case "reinit-closedmid":
+			m.Next()
+			m.Close()
 		}
 	}
 	m.Init(sf, it1, it2)
